@@ -149,20 +149,21 @@ func (b *fb) typeName(local string) string {
 }
 
 type mb struct {
-	b *fb
-	m *descriptorpb.DescriptorProto
+	b    *fb
+	m    *descriptorpb.DescriptorProto
+	path string // local name including the enclosing messages
 }
 
 func (b *fb) msg(name string) *mb {
 	m := &descriptorpb.DescriptorProto{Name: proto.String(name)}
 	b.fd.MessageType = append(b.fd.MessageType, m)
-	return &mb{b, m}
+	return &mb{b, m, name}
 }
 
 func (m *mb) nested(name string) *mb {
 	n := &descriptorpb.DescriptorProto{Name: proto.String(name)}
 	m.m.NestedType = append(m.m.NestedType, n)
-	return &mb{m.b, n}
+	return &mb{m.b, n, m.path + "." + name}
 }
 
 func (b *fb) enum(name string, vals map[string]int32, order []string) {
@@ -179,6 +180,7 @@ type fopt struct {
 	p3opt    bool
 	typeName string
 	extendee string
+	def      string // proto2 default value (descriptor syntax)
 }
 
 func (m *mb) field(name string, num int32, label L, k Kind, o fopt) *descriptorpb.FieldDescriptorProto {
@@ -218,6 +220,9 @@ func mkField(b *fb, name string, num int32, label L, k Kind, o fopt) *descriptor
 	if o.extendee != "" {
 		f.Extendee = proto.String(b.typeName(o.extendee))
 	}
+	if o.def != "" {
+		f.DefaultValue = proto.String(o.def)
+	}
 	return f
 }
 
@@ -253,8 +258,16 @@ func (m *mb) mapField(name string, num int32, key, val Kind, valType string) {
 	m.m.Field = append(m.m.Field, f)
 }
 
-// fullLocalName only supports top-level messages (maps are only declared there in this corpus).
-func (m *mb) fullLocalName() string { return m.m.GetName() }
+func (m *mb) fullLocalName() string { return m.path }
+
+// enum declares an enum nested in the message.
+func (m *mb) enum(name string, vals map[string]int32, order []string) {
+	e := &descriptorpb.EnumDescriptorProto{Name: proto.String(name)}
+	for _, n := range order {
+		e.Value = append(e.Value, &descriptorpb.EnumValueDescriptorProto{Name: proto.String(n), Number: proto.Int32(vals[n])})
+	}
+	m.m.EnumType = append(m.m.EnumType, e)
+}
 
 func (m *mb) oneofDecl(name string) *int32 {
 	idx := int32(len(m.m.OneofDecl))
@@ -545,6 +558,75 @@ func Files() []FileSpec {
 			// packages that NO regular field of the file refers to: only the extensions need the import
 			sc.m.Extension = append(sc.m.Extension, mkField(b, "x_em", 102, Opt, M, fopt{typeName: wkt("Empty"), extendee: "Extendable"}))
 			sc.m.Extension = append(sc.m.Extension, mkField(b, "x_nv", 103, Opt, kindByName("enum"), fopt{typeName: wkt("NullValue"), extendee: "Extendable"}))
+		}})
+	nestedTypes := func(b *fb, proto2 bool) {
+		E := kindByName("enum")
+		M := kindByName("message")
+		o := b.msg("Outer")
+		o.enum("Mode", map[string]int32{"M0": 0, "M1": 1, "M_NEG": -1}, []string{"M0", "M1", "M_NEG"})
+		in := o.nested("Inner")
+		in.enum("Deep", map[string]int32{"D0": 0, "D1": 1}, []string{"D0", "D1"})
+		in.field("d", 1, Opt, E, fopt{typeName: "Outer.Inner.Deep"})
+		in.field("m", 2, Opt, E, fopt{typeName: "Outer.Mode"})
+		in.field("rd", 3, Rep, E, fopt{typeName: "Outer.Inner.Deep"})
+		in.mapField("md", 4, kindByName("string"), E, "Outer.Inner.Deep")
+		in.mapField("mi", 5, kindByName("int32"), M, "Outer.Inner")
+		ii := in.oneofDecl("pick")
+		in.field("od", 6, Opt, E, fopt{typeName: "Outer.Inner.Deep", oneof: ii})
+		in.field("oi", 7, Opt, M, fopt{typeName: "Outer.Inner", oneof: ii})
+		in.field("os", 8, Opt, kindByName("string"), fopt{oneof: ii})
+		o.field("mode", 1, Opt, E, fopt{typeName: "Outer.Mode"})
+		o.field("modes", 2, Rep, E, fopt{typeName: "Outer.Mode"})
+		o.mapField("mm", 3, kindByName("string"), E, "Outer.Mode")
+		o.field("in", 4, Opt, M, fopt{typeName: "Outer.Inner"})
+		o.field("ins", 5, Rep, M, fopt{typeName: "Outer.Inner"})
+		o.mapField("min", 6, kindByName("string"), M, "Outer.Inner")
+		oi := o.oneofDecl("sel")
+		o.field("om", 7, Opt, E, fopt{typeName: "Outer.Mode", oneof: oi})
+		o.field("odp", 8, Opt, E, fopt{typeName: "Outer.Inner.Deep", oneof: oi})
+		o.field("oin", 9, Opt, M, fopt{typeName: "Outer.Inner", oneof: oi})
+		u := b.msg("User")
+		u.field("mode", 1, Opt, E, fopt{typeName: "Outer.Mode"})
+		u.field("deep", 2, Opt, E, fopt{typeName: "Outer.Inner.Deep"})
+		u.field("ins", 3, Rep, M, fopt{typeName: "Outer.Inner"})
+		u.mapField("m", 4, kindByName("uint64"), E, "Outer.Inner.Deep")
+		if proto2 {
+			u.field("pm", 5, Rep, E, fopt{typeName: "Outer.Mode", packed: tr(true)})
+			u.field("req", 6, Req, E, fopt{typeName: "Outer.Inner.Deep"})
+		}
+	}
+	out = append(out, FileSpec{Name: "p3nest", Syntax: "proto3", Cells: "proto3: enums and messages declared inside messages (two levels), used from inside and outside; maps and oneofs inside a nested message",
+		build: func(b *fb) { nestedTypes(b, false) }})
+	out = append(out, FileSpec{Name: "p2nest", Syntax: "proto2", Cells: "proto2: nested enum/message types as above plus packed and required nested enums, and extensions whose value is a nested enum / nested message",
+		build: func(b *fb) {
+			nestedTypes(b, true)
+			x := b.msg("Extendable")
+			x.field("a", 1, Opt, kindByName("int32"), fopt{})
+			x.m.ExtensionRange = append(x.m.ExtensionRange, &descriptorpb.DescriptorProto_ExtensionRange{Start: proto.Int32(100), End: proto.Int32(200)})
+			sc := b.msg("Scope")
+			sc.m.Extension = append(sc.m.Extension, mkField(b, "x_mode", 100, Opt, kindByName("enum"), fopt{typeName: "Outer.Mode", extendee: "Extendable"}))
+			sc.m.Extension = append(sc.m.Extension, mkField(b, "x_deep", 101, Opt, kindByName("enum"), fopt{typeName: "Outer.Inner.Deep", extendee: "Extendable"}))
+			sc.m.Extension = append(sc.m.Extension, mkField(b, "x_inner", 102, Opt, kindByName("message"), fopt{typeName: "Outer.Inner", extendee: "Extendable"}))
+		}})
+	out = append(out, FileSpec{Name: "p2def", Syntax: "proto2", Cells: "proto2: explicit default values on optional fields of every scalar kind and on extensions (an unset field must stay unset on the wire, a field explicitly set to its default must be emitted)",
+		build: func(b *fb) {
+			addChildAndColor(b, "Child", "Color", true)
+			d := b.msg("Defaults")
+			defs := map[string]string{"bool": "true", "int32": "-5", "int64": "-6", "uint32": "7", "uint64": "8", "sint32": "-9", "sint64": "10", "fixed32": "11", "fixed64": "12",
+				"sfixed32": "-13", "sfixed64": "14", "float": "1.5", "double": "-inf", "string": "dflt", "bytes": "\\001x", "enum": "RED"}
+			for i, k := range Kinds {
+				if k.Name == "message" {
+					continue
+				}
+				d.field("f_"+k.Name, int32(i+1), Opt, k, fopt{def: defs[k.Name]})
+			}
+			x := b.msg("Extendable")
+			x.field("a", 1, Opt, kindByName("int32"), fopt{def: "1"})
+			x.m.ExtensionRange = append(x.m.ExtensionRange, &descriptorpb.DescriptorProto_ExtensionRange{Start: proto.Int32(100), End: proto.Int32(200)})
+			sc := b.msg("Scope")
+			for i, kn := range []string{"int32", "sint64", "bool", "string", "double", "enum", "fixed32"} {
+				sc.m.Extension = append(sc.m.Extension, mkField(b, "x_"+kn, int32(100+i), Opt, kindByName(kn), fopt{extendee: "Extendable", def: defs[kn]}))
+			}
 		}})
 	return out
 }
